@@ -9,13 +9,19 @@
 import YowsupVerif.Lemmas.PreKeys
 namespace Yow.PreKeys
 
-/-- bookkeeping invariant of every reachable state: key ids are unique in the store; everything on the pending list
-    is a stored, not-yet-confirmed key; every key ever offered to the server is either still stored — with the
-    same key material — or was consumed by a first message (so it "stays available locally until a first message
-    consumes it"). -/
+/-- Every key ever offered to the server is either still stored — with the same key material — or was consumed by a first
+    message (so it "stays available locally until a first message consumes it"). -/
 theorem C14_offered_key_available_until_consumed (p : Params) (es : List Ev) (ha : AllowedRun p {} es = true) :
-    Inv (run p {} es).1 :=
-  inv_run p {} inv_init es ha
+    let s := (run p {} es).1
+    ∀ kv ∈ s.offered, kv ∈ s.consumed ∨ ∃ r ∈ s.db, r.id = kv.1 ∧ r.key = kv.2 :=
+  offered_available p es ha
+
+/-- Every key id ever offered to the server names exactly one key — also after keys were consumed and the store was
+    refilled (the consumed keys' rows stay as tombstones, so their ids are never handed out again). -/
+theorem C14_offered_id_names_one_key (p : Params) (es : List Ev) (ha : AllowedRun p {} es = true) :
+    let s := (run p {} es).1
+    ∀ a ∈ s.offered, ∀ b ∈ s.offered, a.1 = b.1 → a = b :=
+  offered_ids_unique p es ha
 
 /-- Keys whose upload was not confirmed are offered again at the next login, and only those: after ANY history, a
     connect followed by the authenticated event uploads exactly the stored keys that are not marked as sent. -/
@@ -26,14 +32,12 @@ theorem C14_unconfirmed_reoffered_next_login (p : Params) (es : List Ev) (ha : A
     (∀ rid keys, Out.upload rid keys ∈ r.2 → ∀ kv ∈ keys, ∃ row ∈ s1.db, row.id = kv.1 ∧ row.key = kv.2 ∧ row.sent = false) :=
   login_offers_pending p _ (inv_run p {} inv_init es ha)
 
-/-- A key counts as pending until the server has confirmed an upload containing it and never afterwards
-    (hence confirmed keys are not re-offered, by the previous theorem) — proved for histories in which no key is
-    consumed; with consumption the id of a consumed key can be re-used (known finding, witness below) and the
-    flag is then attributed by id only.  Full statement (all histories) kept visible: `SentExact` for every
-    `AllowedRun` history. -/
-theorem C14_sent_iff_confirmed_partial (p : Params) (es : List Ev) (ha : AllowedRun p {} es = true) (hn : NoConsume es) :
-    SentExact (run p {} es).1 :=
-  sent_exact_run p {} inv_init ⟨by simp, by simp, by simp⟩ es ha hn
+/-- A key counts as pending until the server has confirmed an upload containing it and never afterwards (hence confirmed
+    keys are not re-offered, by the previous theorem) — for EVERY allowed history, consumption included. -/
+theorem C14_sent_iff_confirmed (p : Params) (es : List Ev) (ha : AllowedRun p {} es = true) :
+    let s := (run p {} es).1
+    (∀ r ∈ s.db, r.sent = true ↔ (r.id, r.key) ∈ s.confirmed) ∧ (∀ kv ∈ s.confirmed, kv ∈ s.offered) :=
+  sent_exact_run p es ha
 
 /-- A consumed key cannot be used again: the second first-message naming it is refused; so is any id that names no
     stored key. -/
@@ -49,17 +53,11 @@ theorem C14_id_encoding (a b : Nat) (ha : a < 16777216) (hb : b < 16777216) :
     adjustId a = [a / 65536 % 256, a / 256 % 256, a % 256] ∧ (adjustId a = adjustId b → a = b) :=
   ⟨(adjustId_spec a ha).1, adjustId_injective a b ha hb⟩
 
-/-- Known finding (DESIGN §8), as a model witness: after the keys with the highest ids were consumed, the next
-    refill starts below them and re-uses an id for a different key ("every key id offered maps to exactly one key"
-    fails): here id 2 is offered twice with different key material. -/
-theorem C14_id_reuse_witness :
-    let s := (run { batch := 4, threshold := 2 } {} [.connect, .authed true, .consume 4, .consume 3, .consume 2, .connect, .authed true]).1
-    (2, 2) ∈ s.offered ∧ (2, 5) ∈ s.offered ∧
-    AllowedRun { batch := 4, threshold := 2 } {} [.connect, .authed true, .consume 4, .consume 3, .consume 2, .connect, .authed true] = true := by
-  decide
-
-/- Non-vacuity: a history with an unconfirmed upload, a restart and a second login is allowed. -/
-example : AllowedRun { batch := 4, threshold := 2 } {} [.connect, .authed true, .restart, .connect, .authed true, .uploadResult 2, .disconnected] = true := by
+/-- non-vacuity: a history with consumption and a refill; the refill starts above the consumed ids -/
+example :
+    let es : List Ev := [.connect, .authed true, .consume 4, .consume 3, .consume 2, .connect, .authed true]
+    AllowedRun { batch := 4, threshold := 2 } {} es = true ∧
+    (run { batch := 4, threshold := 2 } {} es).1.offered.map Prod.fst = [1, 2, 3, 4, 1, 5, 6, 7, 8] := by
   decide
 
 end Yow.PreKeys
